@@ -74,8 +74,17 @@ def book_order(repo: Repo) -> List[Ob]:
     (obs.append(ok("BOOK-order", u, "refresh-formula", P, u.node, "every member gets (product-space position, tensor position)")) if good else
      obs.append(bad("BOOK-order", u, "refresh-formula", P, u.node, "update_all_indices no longer assigns (space index, slot index) from the two enumerations")))
     sets_ce = any(isinstance(n, ast.Attribute) and n.attr == "composite_envelope" and isinstance(n.ctx, ast.Store) for n in walk_no_nested(u.node))
+    if sets_ce:
+        # path form: whenever a member's index is refreshed, its back pointer is (re)written before the next member is looked at
+        ucfg = CFG(u.node)
+        ext = [nd for nd in ucfg.nodes for x in walk_node(nd) if method_call(x) and method_call(x)[1] in ("extract", "set_index")]
+        bp = {nd for nd in ucfg.nodes if nd.kind == "stmt" and isinstance(nd.ast, ast.Assign) and any(isinstance(t, ast.Attribute) and t.attr == "composite_envelope" for t in nd.ast.targets)}
+        heads = {nd for nd in ucfg.nodes if nd.kind == "iter"} | {ucfg.exit}
+        for e in ext:
+            if ucfg.reachable([m for m, _ in ucfg.succ[e]], blocked=bp) & heads:
+                sets_ce = False
     (obs.append(ok("BOOK-order", u, "refresh-backpointer", P, u.node, "members are pointed back to the composite")) if sets_ce else
-     obs.append(bad("BOOK-order", u, "refresh-backpointer", P, u.node, "update_all_indices no longer sets the member's composite_envelope")))
+     obs.append(bad("BOOK-order", u, "refresh-backpointer", P, u.node, "update_all_indices does not (re)write the member's composite_envelope for every member it re-indexes: after a merge, members keep pointing to the composite they were in before")))
     r = repo.func("CompositeEnvelopeContainer.remove_empty_product_states")
     copy_iter = any(isinstance(n, ast.For) and (isinstance(n.iter, ast.Subscript) or (isinstance(n.iter, ast.Call) and src(n.iter.func) in ("list", "tuple"))) for n in walk_no_nested(r.node))
     rebuild = any(isinstance(n, ast.Assign) and any("self.states" == src(t) for t in n.targets) for n in walk_no_nested(r.node))
